@@ -85,6 +85,11 @@ class Registry:
         self.invariants: Dict[str, tuple] = {}
         self.lemmas: list = []
         self.ufuns: Dict[str, tuple] = {}
+        self.writer_rules: list = []
+
+    def writers(self, prop, attr, allowed, why=""):
+        """Whole-tree syntactic obligation: attribute `attr` is stored to only inside the listed functions."""
+        self.writer_rules.append({"prop": prop, "attr": attr, "allowed": list(allowed), "why": why})
 
     def ufun(self, name, nargs, ret="bool"):
         """Uninterpreted spec function over values (heap dependence must be made explicit, e.g. through epoch())."""
@@ -118,6 +123,7 @@ spec = REG.spec
 inline = REG.inline_fn
 invariant = REG.invariant
 ufun = REG.ufun
+writers = REG.writers
 
 
 def attr_types(d):
